@@ -205,11 +205,38 @@ def rule_r2(prog, res) -> None:
                 n_sites += 1
                 res.touch(m)
 
-                def is_exit_test(cfg_, t, fn_node) -> bool:
+                weak: list = []
+
+                def is_exit_test(cfg_, t, fn_node, weak=weak) -> bool:
                     # the tested value may be `.exitcode` itself or a local that was read from it
                     if t.kind != "test" or not depends_on(fn_node, t.expr, lambda a: isinstance(a, ast.Attribute) and a.attr == "exitcode"):
                         return False
-                    return any(raise_dominated_by(cfg_, b) for b in branch_nodes_of(cfg_, t).values())
+                    raising = {pol for pol, b in branch_nodes_of(cfg_, t).items() if raise_dominated_by(cfg_, b)}
+                    if not raising:
+                        return False
+                    # the test must be right, not only present: folded over the exit statuses of a process — 0 success,
+                    # positive: exception / sys.exit(n), negative: killed by signal -n — it raises exactly for the non-zero ones
+                    from .common import expand_locals
+
+                    class _Sub(ast.NodeTransformer):
+                        def __init__(self, v):
+                            self.v = v
+
+                        def visit_Attribute(self, node):
+                            return ast.Constant(self.v) if node.attr == "exitcode" else self.generic_visit(node)
+
+                    full = expand_locals(fn_node, t.expr, set())
+                    for code in (0, 1, 2, 255, -9, -15):
+                        try:
+                            import copy
+
+                            val = bool(ceval(_Sub(code).visit(copy.deepcopy(full)), {"exc_type": None, "exc_value": None}))
+                        except Unknown:
+                            break
+                        if (val in raising) != (code != 0) and len(raising) == 1:
+                            weak.append((t, code))
+                            break
+                    return True
 
                 def escapes(fn: FuncInfo, start, env) -> bool:
                     c = cfg_of(fn.node)
@@ -238,7 +265,18 @@ def rule_r2(prog, res) -> None:
                     relevant = [(m2, n2) for m2, n2 in relevant if live(m2, n2)]
                     if relevant and all(not escapes(m2, n2, exc_env(m2, False) if m2.name == "__exit__" else {}) for m2, n2 in relevant):
                         ok = True
-                if ok:
+                if ok and weak:
+                    t_, code = weak[0]
+                    res.violation(
+                        "C09.R2",
+                        m,
+                        t_.ast if hasattr(t_, "ast") else n.ast,
+                        f"the exit status test `{unparse(t_.expr)[:60]}` does not raise for exit code {code}"
+                        + (" (a helper process killed by a signal has a negative exit code)" if code < 0 else "")
+                        + ": the failure of the writer process is dropped and the caller continues with whatever is on disk",
+                        key_extra="process-exitcode-test-weak",
+                    )
+                elif ok:
                     res.ok("C09.R2", res.site(m, "Process.join"), "every normal continuation after join tests .exitcode and raises")
                 else:
                     res.violation(
